@@ -133,9 +133,17 @@ def _writer_loop(mode: int, w: int, nr: int, recf, fname: str) -> None:
     2: LogMux capture of blocks of records, flushed in order after the capture (logmux.flush);
     3: logmux.write_or_buffer without an active mux (write-through)"""
     import clematis.io.log as L
+    box: Dict[str, Any] = {}
+
+    def reused(d):
+        """the writer keeps ONE dict object and refills it for every record: what was appended is the content at
+        the time of the call, whatever happens to the object afterwards (append_jsonl copies before buffering)"""
+        box.clear()
+        box.update(d)
+        return box
     if mode == 0:
         for s in range(1, nr + 1):
-            L.append_jsonl(fname, recf(w, s))
+            L.append_jsonl(fname, reused(recf(w, s)) if s % 2 else recf(w, s))
     elif mode == 1:
         from clematis.engine.orchestrator import logging as OL
         for s in range(1, nr + 1):
@@ -148,7 +156,10 @@ def _writer_loop(mode: int, w: int, nr: int, recf, fname: str) -> None:
             mux = MX.LogMux()
             with MX.use_mux(mux):
                 for i, q in enumerate(blk):
-                    (L.append_jsonl if i % 2 == 0 else MX.write_or_buffer)(fname, recf(w, q))
+                    if i % 2 == 0:
+                        L.append_jsonl(fname, reused(recf(w, q)))
+                    else:
+                        MX.write_or_buffer(fname, recf(w, q))
             MX.flush(mux.dump())
             s = blk[-1] + 1
     else:
